@@ -24,6 +24,15 @@ CLAIMED = {
     note="Trusted: Coq kernel + vm_compute; vlib/skel.py (clang AST -> skeleton); nm; harness (tool_caller, librecorder). The skeleton semantics treats named callees as arbitrary "
          "returning state transformers that receive parameters by value; write-through via the stored pointers is covered by const-qualification check + deep-content comparison only.",
     technique="Coq proof over clang-AST-regenerated wrapper skeletons + recorder-based system-level correspondence"),
+
+ "C06": dict(
+    text="Coq theorems for the running-offset loop of cmdline.c (C06_cmdline_join: equals the first size-1 bytes of the space-joined argv for EVERY argv and size; "
+         "C06_fallback, C06_filename, C06_fits) and for the input-data life cycle over ALL call histories in both build variants (C06_no_leftover, C06_record_is_own), "
+         "the life-cycle facts being computed from skeletons regenerated from clang's AST; tied by function-level differential runs (ASan+UBSan) and by histories of "
+         "2..30 calls in one process through the production wrapper in thread-safe and non-thread-safe builds.",
+    ref="DESIGN.md section 7 C06",
+    note="Trusted: Coq kernel + vm_compute; tr_expand/skel translators; extraction + drivers; snprintf semantics. NULL path (execv(NULL,..)) is outside the domain.",
+    technique="Coq proof (loop invariant, induction over histories) + function-level and history correspondence"),
 }
 
 PENDING_REASON = "not claimed yet: the Coq model and its tie for this property are not built at this commit (planned, see DESIGN.md section 12)"
